@@ -137,6 +137,35 @@ pub fn noise_events() -> Vec<Event> {
     add("udp6-rpc", flow6(40000, 80).udp(&apprpc::build_call(0x09090909, 2, 100000, 2, 0, &[], &[])));
     add("syn-other", flow4(50000, 81).tcp(1, 0, F_SYN, b""));
     add("data-other-badack", flow4(50000, 81).tcp(1, 12345, F_PSH | F_ACK, HTTP_REQ));
+    // ICMP errors that QUOTE a segment of flow A (IPv4, 40000 <-> 80) / flow C (IPv6): port
+    // unreachable from the client, fragmentation needed and time exceeded from a third host,
+    // ICMPv6 port unreachable and packet too big - traffic of another kind, whatever it quotes
+    {
+        let fa = flow4(40000, 80);
+        let quoted4 = {
+            let seg = TcpSeg::new(80, 40000, 0x11223344, 1001, F_PSH | F_ACK, b"").bytes(&fa.sip, &fa.cip);
+            ipv4_raw(s4, c4, P_TCP, &seg, 5, None, &[], 64, 0x4000, 0)
+        };
+        let mut body = vec![0u8; 4];
+        body.extend_from_slice(&quoted4[..40.min(quoted4.len())]);
+        add("icmp4-port-unreachable-quoting-A", fa.ip_frame(P_ICMP, &icmp4(3, 3, &body)));
+        let mut third = fa.clone();
+        third.cip = cli4b();
+        third.cmac = MAC_CLI2;
+        let mut b2 = vec![0u8, 0, 0x05, 0x00];
+        b2.extend_from_slice(&quoted4[..40.min(quoted4.len())]);
+        add("icmp4-frag-needed-quoting-A", third.ip_frame(P_ICMP, &icmp4(3, 4, &b2)));
+        add("icmp4-time-exceeded-quoting-A", third.ip_frame(P_ICMP, &icmp4(11, 0, &body)));
+        let fc = flow6(40000, 80);
+        let seg6 = TcpSeg::new(80, 40000, 0x11223344, 1001, F_PSH | F_ACK, b"").bytes(&fc.sip, &fc.cip);
+        let quoted6 = ip(&fc.sip, &fc.cip, P_TCP, &seg6);
+        let mut b6 = vec![0u8; 4];
+        b6.extend_from_slice(&quoted6);
+        add("icmp6-port-unreachable-quoting-C", fc.ip_frame(P_ICMP6, &icmp6(&fc.cip, &fc.sip, 1, 4, &b6)));
+        let mut b7 = vec![0u8, 0, 0x05, 0x00];
+        b7.extend_from_slice(&quoted6);
+        add("icmp6-packet-too-big-quoting-C", fc.ip_frame(P_ICMP6, &icmp6(&fc.cip, &fc.sip, 2, 0, &b7)));
+    }
     v
 }
 
@@ -1139,6 +1168,13 @@ pub fn run_c09(rep: &mut Report, thorough: bool) {
     ack_neighbourhood(&s, rep, "C09");
     source_mac_stage(&s.cfg, rep, "C09");
     sibling_bfs(&s.cfg, rep, "bfs-c09-sibling-destinations", thorough);
+    // whatever ENVELOPE the accepted segment travels in (every single departure of one IP / TCP
+    // header field, as is and with sender-style checksums): a segment the reference accepts
+    // creates exactly one entry (and the reference decides which departures make it unacceptable)
+    if let Ok(env) = crate::props::apps::AppEnv::new(s.cfg.clone()) {
+        crate::props::apps::envelope_stage(rep, &env, "table-size-envelope", HTTP_REQ, true, false);
+        crate::props::apps::window_stage(rep, &env, "table-size-segment-fields", HTTP_REQ, 64);
+    }
     // whatever the accepted segment CARRIES (every corpus payload, every STUN attribute shape incl.
     // CHANGE-REQUEST in >= 256-byte requests, twice in a row): one flow, one entry
     {
